@@ -158,6 +158,9 @@ pub(crate) fn read_tags_array(
     // NOTE: we cannot write any tag strings until after we have counted the tags.
     // (our tags structure is optimized for reading, not writing)
     let num_tags: usize = count_tags(input, *inposp)?;
+    if num_tags > 65535 {
+        return Err(InnerError::JsonBad("Too many tags", *inposp).into());
+    }
     put(output, 2, (num_tags as u16).to_ne_bytes().as_slice())?;
 
     // Case where we have no tags
@@ -178,6 +181,9 @@ pub(crate) fn read_tags_array(
 
     loop {
         // Write the offset of this tag
+        if outpos > 65535 {
+            return Err(InnerError::JsonBad("Tags section too long", *inposp).into());
+        }
         let offset_slot = 4 + tag_num * 2;
         put(
             output,
@@ -213,6 +219,9 @@ pub(crate) fn read_tags_array(
     }
 
     // Write length of tags section
+    if outpos > 65535 {
+        return Err(InnerError::JsonBad("Tags section too long", *inposp).into());
+    }
     put(output, 0, (outpos as u16).to_ne_bytes().as_slice())?;
 
     Ok(outpos)
@@ -276,6 +285,9 @@ pub(crate) fn read_tag(
             return Err(InnerError::BufferTooSmall(*outposp + 2).into());
         }
         let (inlen, outlen) = json_unescape(&input[*inposp..], &mut output[*outposp + 2..])?;
+        if outlen > 65535 {
+            return Err(InnerError::JsonBad("Tag string too long", *inposp).into());
+        }
         // write the length before it
         put(output, *outposp, (outlen as u16).to_ne_bytes().as_slice())?;
         // bump the outposp past it
@@ -291,6 +303,9 @@ pub(crate) fn read_tag(
                 eat_whitespace(input, inposp);
                 verify_char(input, b'"', inposp)?;
                 num_strings += 1;
+                if num_strings > 65535 {
+                    return Err(InnerError::JsonBad("Too many strings in tag", *inposp).into());
+                }
                 continue;
             }
             b']' => {
@@ -332,6 +347,9 @@ pub(crate) fn read_content(
 
     // Write event size
     let event_len = after_tags + 4 + outlen;
+    if event_len > u32::MAX as usize {
+        return Err(InnerError::JsonBad("Event too long", *inposp).into());
+    }
     put(output, 0, (event_len as u32).to_ne_bytes().as_slice())?;
 
     Ok(())
